@@ -160,3 +160,42 @@ def fallback_results(prop):
                         'backend': 'native-scenarios', 'seconds': 0.0, 'model': {}, 'replay': {'confirmed': True, 'inputs': f}})
             break
     return out
+
+
+def check_dispatch():
+    """C08 through the decoder: sibling definitions of a multi-definition PGN decoded one after the other on ONE
+    decoder must each come back under the definition the database dispatch selects."""
+    import sys
+    from spec.canboat import DB
+    from nmea2000.decoder import NMEA2000Decoder
+    db = DB()
+    dec = NMEA2000Decoder()
+    for pgn, group in db.multi_groups():
+        payloads = []
+        for d in group:
+            if d.fallback:
+                continue
+            p = 0
+            for f in d.match_fields:
+                p |= int(f.match) << f.offset_bits
+            n = max(8, (max((f.offset_bits + f.L for f in d.match_fields), default=0) + 7) // 8)
+            payloads.append((d, p, n))
+        for (da, pa, na), (db_, pb, nb) in itertools.permutations(payloads, 2):
+            for (d, p, n) in ((da, pa, na), (db_, pb, nb)):
+                exp = db.dispatch(pgn, lambda o, L: (p >> o) & ((1 << L) - 1))
+                by = p.to_bytes(n, 'little')
+                line = f"2020-01-01-00:00:00.000,3,{pgn},1,255,{n}," + ','.join(f'{b:02x}' for b in by)
+                try:
+                    m = dec.decode_basic_string(line, True)
+                    got = None if m is None else m.id
+                except Exception as e:  # noqa
+                    import traceback
+                    tb = traceback.extract_tb(e.__traceback__)
+                    sel = [fr.name for fr in tb if fr.name.startswith(f'decode_pgn_{pgn}_')]
+                    got = sel[0][len(f'decode_pgn_{pgn}_'):] if sel else ('raise', type(e).__name__)
+                if got != (exp.id if exp else None):
+                    return {'pgn': pgn, 'payload': by.hex(), 'after_sibling': da.id if d is db_ else None, 'observed': str(got), 'expected': exp.id if exp else None}
+    return None
+
+
+BATTERY['C08'] = [check_dispatch]
